@@ -194,32 +194,40 @@ def rule_namespaces(chk, prog, tier):
         fn = prog.require_func(fname)
         used = {n.get('name') for n in walk(fn) if n.get('kind') == 'MemberExpr' and n.get('name') in ('tags', 'decls')}
         r.instance(used == {field}, 'namespace:%s' % fname, 'scope.c:%s' % fn.get('line'), '%s() accesses %s, must use only scope.%s' % (fname, sorted(used), field))
-    # chain walk: E-AI of scopegetdecl over a 3-level chain with a scripted mapget
-    fn = prog.require_func('scopegetdecl')
-    for where_found in (0, 1, 2, None):
-        for recurse in (0, 1):
-            def runner(it):
-                scopes = []
-                par_ = None
-                for i in range(3):
-                    s = Obj('scope%d' % i, 'heap'); s.f[('parent',)] = par_; s.f[('decls', 'len')] = 1; s.f[('tags', 'len')] = 1
-                    par_ = Ptr(s, ()); scopes.append(par_)
-                scopes.reverse()      # scopes[0] innermost
-                hit = Ptr(Obj('decl', 'heap'), ())
-                def mapget(it2, a, e):
-                    m = a[0]
-                    for i, s in enumerate(scopes):
-                        if m.obj is s.obj and m.path == ('decls',):
-                            return hit if (where_found is not None and i >= where_found and i == where_found) else None
-                    raise Unsupported('mapget on %r' % (m,))
-                it.models['mapget'] = mapget
-                it.models['mapkey'] = lambda it2, a, e: None
-                res = it.call(fn, [scopes[0], Ptr(it.mkstr(list(b'x'), 'x'), (0,)), recurse])
-                return res == hit
-            runs = explore(prog, runner, {}, max_runs=2)
-            want_hit = where_found is not None and (where_found == 0 or recurse)
-            ok = runs[0].outcome == 'return' and runs[0].value == want_hit
-            r.instance(ok, 'chain:found-at=%s,recurse=%d' % (where_found, recurse), 'scope.c:%s' % fn.get('line'), 'expected hit=%s got %s' % (want_hit, runs[0].value))
+    # chain walk: E-AI of both lookup functions over a 3-level chain with a scripted mapget; each scope may or may not have
+    # allocated its table yet (tables are created lazily by the first put)
+    import itertools
+    for fname, field in (('scopegetdecl', 'decls'), ('scopegettag', 'tags')):
+        fn = prog.require_func(fname)
+        for lens in itertools.product((0, 1), repeat=3):
+            for where_found in (0, 1, 2, None):
+                if where_found is not None and not lens[where_found]: continue
+                for recurse in (0, 1):
+                    def runner(it):
+                        scopes = []
+                        par_ = None
+                        for i in reversed(range(3)):
+                            s_ = Obj('scope%d' % i, 'heap'); s_.f[('parent',)] = par_
+                            s_.f[('decls', 'len')] = lens[i] if field == 'decls' else 1; s_.f[('tags', 'len')] = lens[i] if field == 'tags' else 1
+                            par_ = Ptr(s_, ()); scopes.append(par_)
+                        scopes.reverse()      # scopes[0] innermost
+                        hit = Ptr(Obj('entry', 'heap'), ())
+                        def mapget(it2, a, e):
+                            m = a[0]
+                            for i, sc_ in enumerate(scopes):
+                                if m.obj is sc_.obj and m.path == (field,):
+                                    if not lens[i]: raise Unsupported('mapget on a table that was never allocated (scope %d)' % i)
+                                    return hit if i == where_found else None
+                            raise Unsupported('mapget on %r' % (m,))
+                        it.models['mapget'] = mapget
+                        it.models['mapkey'] = lambda it2, a, e: None
+                        res = it.call(fn, [scopes[0], Ptr(it.mkstr(list(b'x'), 'x'), (0,)), recurse])
+                        return res == hit
+                    runs = explore(prog, runner, {}, max_runs=2, on_unsupported='keep')
+                    want_hit = where_found is not None and (where_found == 0 or bool(recurse))
+                    ok = len(runs) == 1 and runs[0].outcome == 'return' and runs[0].value == want_hit
+                    r.instance(ok, 'chain:%s,tables=%s,found-at=%s,recurse=%d' % (fname, ''.join(map(str, lens)), where_found, recurse), 'scope.c:%s' % fn.get('line'),
+                               'innermost-first lookup%s: expected hit=%s, got %s' % ('' if recurse else ' restricted to the innermost scope', want_hit, runs[0].value if runs[0].outcome == 'return' else '%s %s' % (runs[0].outcome, runs[0].detail)))
     r.exhaustive = True
 
 
